@@ -50,6 +50,7 @@ type Exec struct {
 	unverif  map[string]int // callees without contract that were havoced
 	inlined  map[string]int
 	heapSort map[string]string
+	heapElem map[string]types.Type // element type of typed heaps (for typing invariants)
 	cellSeq  int
 	frameSeq int
 	iterSeq  int
@@ -71,6 +72,7 @@ type Exec struct {
 	entryVars  map[string]Val
 	resultNames []string
 	unsupported []string
+	recs        map[string]*recInfo
 }
 
 type unsupportedErr struct{ msg string }
@@ -81,7 +83,7 @@ func (x *Exec) unsup(format string, a ...interface{}) {
 
 func newExec(L *Loaded, db *SpecDB) *Exec {
 	x := &Exec{L: L, db: db, ctx: newSMTCtx(), trusted: map[string]int{}, unverif: map[string]int{},
-		inlined: map[string]int{}, heapSort: map[string]string{}, maxDepth: 4, maxSteps: 20000, maxPaths: 4000,
+		inlined: map[string]int{}, heapSort: map[string]string{}, heapElem: map[string]types.Type{}, maxDepth: 4, maxSteps: 20000, maxPaths: 4000,
 		ghostTy: map[string]*STy{}}
 	x.heapSort["$alloc"] = "Int"
 	return x
@@ -121,6 +123,7 @@ func (x *Exec) heap(st *State, name, srt string) string {
 		if name == "$alloc" && ep == 0 {
 			st.emit("(assert (> $alloc@e0 0))")
 		}
+		x.typingAxiom(st, name, v)
 	}
 	st.heaps[name] = v
 	return v
@@ -139,7 +142,27 @@ func (x *Exec) havocHeap(st *State, name, srt string) string {
 	v := x.ctx.fresh(name + "@")
 	st.emit(fmt.Sprintf("(declare-const %s %s)", v, srt))
 	st.heaps[name] = v
+	x.typingAxiom(st, name, v)
 	return v
+}
+
+// typingAxiom: every cell of an integer-typed heap holds a value of its Go type's range.
+func (x *Exec) typingAxiom(st *State, name, v string) {
+	et, ok := x.heapElem[name]
+	if !ok {
+		return
+	}
+	bits, signed, isInt := intInfo(et)
+	if !isInt {
+		return
+	}
+	lo, hi := intRange(bits, signed)
+	switch name[0] {
+	case 'E':
+		st.emit(fmt.Sprintf("(assert (forall ((r Int) (i Int)) (! (and (<= %s (select (select %s r) i)) (<= (select (select %s r) i) %s)) :pattern ((select (select %s r) i)))))", lo, v, v, hi, v))
+	case 'F', 'P':
+		st.emit(fmt.Sprintf("(assert (forall ((r Int)) (! (and (<= %s (select %s r)) (<= (select %s r) %s)) :pattern ((select %s r)))))", lo, v, v, hi, v))
+	}
 }
 
 func (x *Exec) freshConst(st *State, prefix, srt string) string {
@@ -155,17 +178,53 @@ func (x *Exec) structCanon(t types.Type) (string, *types.Struct) {
 
 func (x *Exec) fieldHeap(structT types.Type, i int) (string, string) {
 	sn, st := x.structCanon(structT)
-	return "F$" + sn + "$" + st.Field(i).Name(), fmt.Sprintf("(Array Int %s)", x.ctx.sortOf(st.Field(i).Type()))
+	n := "F$" + sn + "$" + st.Field(i).Name()
+	if _, ok := x.heapElem[n]; !ok {
+		x.heapElem[n] = st.Field(i).Type()
+	}
+	return n, fmt.Sprintf("(Array Int %s)", x.ctx.sortOf(st.Field(i).Type()))
+}
+
+// heapTypeKey: integer element types get their own heap (typing invariants differ); other
+// element types are keyed by sort.
+func (x *Exec) heapTypeKey(t types.Type) string {
+	if bits, signed, ok := intInfo(t); ok {
+		if signed {
+			return fmt.Sprintf("i%d", bits)
+		}
+		return fmt.Sprintf("u%d", bits)
+	}
+	return mangle(x.ctx.sortOf(t))
 }
 
 func (x *Exec) elemHeap(elemT types.Type) (string, string) {
 	s := x.ctx.sortOf(elemT)
-	return "E$" + mangle(s), fmt.Sprintf("(Array Int (Array Int %s))", s)
+	n := "E$" + x.heapTypeKey(elemT)
+	if _, ok := x.heapElem[n]; !ok {
+		x.heapElem[n] = elemT
+	}
+	return n, fmt.Sprintf("(Array Int (Array Int %s))", s)
+}
+
+// atFn: element access function at_T(heap, slice, i) = heap[arr(slice)][off(slice)+i]; it keeps
+// quantifier triggers free of arithmetic.
+func (x *Exec) atFn(elemT types.Type) string {
+	fn := "at_" + x.heapTypeKey(elemT)
+	if !x.ctx.hasDecl(fn) {
+		s := x.ctx.sortOf(elemT)
+		x.ctx.addDecl(fn, fmt.Sprintf("(declare-fun %s ((Array Int (Array Int %s)) Slice Int) %s)", fn, s, s))
+		x.ctx.addAxiom(fn, fmt.Sprintf("(assert (forall ((h (Array Int (Array Int %s))) (s Slice) (i Int)) (! (= (%s h s i) (select (select h (s_arr s)) (+ (s_off s) i))) :pattern ((%s h s i)))))", s, fn, fn))
+	}
+	return fn
 }
 
 func (x *Exec) boxHeap(elemT types.Type) (string, string) {
 	s := x.ctx.sortOf(elemT)
-	return "P$" + mangle(s), fmt.Sprintf("(Array Int %s)", s)
+	n := "P$" + x.heapTypeKey(elemT)
+	if _, ok := x.heapElem[n]; !ok {
+		x.heapElem[n] = elemT
+	}
+	return n, fmt.Sprintf("(Array Int %s)", s)
 }
 
 func (x *Exec) mapHeaps(mt *types.Map) (string, string, string, string) {
@@ -365,7 +424,7 @@ func (x *Exec) loadTerm(st *State, l *Loc) string {
 		return fmt.Sprintf("(%s %s)", x.ctx.fieldAcc(sn, stt, l.Field), x.loadTerm(st, p))
 	case LElem:
 		hn, hs := x.elemHeap(l.Elem)
-		return sel(sel(x.heap(st, hn, hs), l.Arr), l.Idx)
+		return app(x.atFn(l.Elem), x.heap(st, hn, hs), l.Arr, l.Idx)
 	case LArrIdx:
 		return sel(x.loadTerm(st, l.Parent), l.Idx)
 	case LCell:
@@ -427,7 +486,8 @@ func (x *Exec) storeTerm(st *State, l *Loc, t string) {
 	case LElem:
 		hn, hs := x.elemHeap(l.Elem)
 		h := x.heap(st, hn, hs)
-		x.setHeap(st, hn, hs, sto(h, l.Arr, sto(sel(h, l.Arr), l.Idx, t)))
+		arr, abs := "(s_arr "+l.Arr+")", "(+ (s_off "+l.Arr+") "+l.Idx+")"
+		x.setHeap(st, hn, hs, sto(h, arr, sto(sel(h, arr), abs, t)))
 	case LArrIdx:
 		x.storeTerm(st, l.Parent, sto(x.loadTerm(st, l.Parent), l.Idx, t))
 	case LGlobal:
@@ -607,10 +667,58 @@ func trem(a, b string) string {
 	return fmt.Sprintf("(ite (>= %[1]s 0) (mod %[1]s %[2]s) (- (mod (- %[1]s) %[2]s)))", a, abs)
 }
 
+// knownBits: v < 2^hi and v is a multiple of 2^lo (hi == 0: unknown)
+func knownBits(v Val, t types.Type) (int, int) {
+	if v.Hi > 0 {
+		return v.Hi, v.Lo
+	}
+	if k, ok := isIntLit(v.T); ok {
+		hi, lo := 0, 0
+		for kk := k; kk > 0; kk >>= 1 {
+			hi++
+		}
+		if k == 0 {
+			return 1, 64
+		}
+		for kk := k; kk&1 == 0; kk >>= 1 {
+			lo++
+		}
+		return hi, lo
+	}
+	if bits, signed, ok := intInfo(t); ok && !signed {
+		return bits, 0
+	}
+	return 0, 0
+}
+
 func (x *Exec) binop(st *State, ins *ssa.BinOp) Val {
 	a, b := x.operand(st, ins.X), x.operand(st, ins.Y)
 	rt := ins.Type()
 	xt := ins.X.Type()
+	if _, signed, ok := intInfo(xt); ok && !signed {
+		ah, al := knownBits(a, xt)
+		bh, bl := knownBits(b, ins.Y.Type())
+		switch ins.Op {
+		case token.OR, token.XOR:
+			if ah > 0 && bh > 0 && (ah <= bl || bh <= al) {
+				hi, lo := ah, al
+				if bh > hi {
+					hi = bh
+				}
+				if bl < lo {
+					lo = bl
+				}
+				return Val{T: app("+", a.T, b.T), Ty: rt, Hi: hi, Lo: lo}
+			}
+		case token.SHL:
+			if k, ok := isIntLit(b.T); ok && ah > 0 {
+				bits, _, _ := intInfo(xt)
+				if ah+int(k) <= bits {
+					return Val{T: app("*", a.T, pow2(int(k))), Ty: rt, Hi: ah + int(k), Lo: al + int(k)}
+				}
+			}
+		}
+	}
 	switch ins.Op {
 	case token.EQL, token.NEQ:
 		e := x.equal(st, a, b, xt)
